@@ -55,23 +55,6 @@ pub assume_specification<'a, P: core::str::pattern::Pattern>[ str::trim_end_matc
     where for<'b> P::Searcher<'b>: core::str::pattern::ReverseSearcher<'b>,
     ensures pat_char(p) is Some ==> r@ == trim_end(s@, pat_char(p)->Some_0);
 #[verifier::external_body] pub fn vconcat(a: String, b: &str) -> (r: String) ensures r@ == a@ + b@ { unimplemented!() }
-// core::fmt::Formatter as an output buffer; a write either appends or fails (then the whole formatting fails)
-pub mod fmt {
-    use super::*;
-    pub struct Error { pub dummy: u8 }
-    pub type Result = core::result::Result<(), Error>;
-    pub struct Formatter { pub out: Ghost<Seq<char>> }
-    impl Formatter {
-//%if A
-        // no-abort mode: the buffer is a String (ToString), writes to it do not fail
-        #[verifier::external_body] pub fn write_str(&mut self, s: &str) -> (r: Result) ensures r is Ok, final(self).out@ == old(self).out@ + s@ { unimplemented!() }
-        #[verifier::external_body] pub fn write_char(&mut self, c: char) -> (r: Result) ensures r is Ok, final(self).out@ == old(self).out@.push(c) { unimplemented!() }
-//%else
-        #[verifier::external_body] pub fn write_str(&mut self, s: &str) -> (r: Result) ensures r is Ok ==> final(self).out@ == old(self).out@ + s@, r is Err ==> final(self).out@ == old(self).out@ { unimplemented!() }
-        #[verifier::external_body] pub fn write_char(&mut self, c: char) -> (r: Result) ensures r is Ok ==> final(self).out@ == old(self).out@.push(c), r is Err ==> final(self).out@ == old(self).out@ { unimplemented!() }
-//%endif
-    }
-}
 // serde: only the two primitives the repository's impls call -- ASSUMED shapes (serde 1.x)
 pub mod ser {
     use super::*;
@@ -85,13 +68,4 @@ pub mod ser {
 pub mod de {
     use super::*;
     pub trait Error: Sized { fn custom(msg: String) -> Self; }
-}
-// std's blanket `impl<T: Display> ToString for T`: a fresh buffer, Display::fmt into it, panic if fmt fails, return the buffer
-impl fmt::Formatter {
-    #[verifier::external_body] pub fn new_buffer() -> (r: fmt::Formatter) ensures r.out@ == Seq::<char>::empty() { unimplemented!() }
-//%if A
-    #[verifier::external_body] pub fn finish(self, res: fmt::Result) -> (r: String) requires res is Ok ensures r@ == self.out@ { unimplemented!() }
-//%else
-    #[verifier::external_body] pub fn finish(self, res: fmt::Result) -> (r: String) ensures res is Ok, r@ == self.out@ { unimplemented!() }
-//%endif
 }
